@@ -426,7 +426,7 @@ func (s *StoreSession) roCheck(from int) (out []Mismatch) {
 	s.flog.mu.Lock()
 	for _, op := range s.flog.Ops[from:] {
 		switch op.Op {
-		case "writeAt", "truncate", "sync", "create":
+		case "writeAt", "truncate", "create": // (a Sync alone changes nothing: SnapshotRevert on a read-only store syncs, then fails on its write)
 			out = append(out, Mismatch{What: "readonly.fileop", Got: fmt.Sprintf("%s %s", op.Op, filepath.Base(op.Name)), Want: "no mutating file operation"})
 		case "open":
 			if op.Flag&(os.O_WRONLY|os.O_RDWR|os.O_CREATE|os.O_TRUNC) != 0 {
